@@ -39,7 +39,13 @@ func c09(c *core.Ctx) {
 		c.Rule("C09.bounds", "the slice arithmetic of verifyAndDecrypt with the signature length and the padding size is in bounds for every chunk length: a chunk truncated to any length, or carrying any padding byte, yields a security error and never a panic", 6)
 		installMinLenHook(c)
 		installConsumedHook(c)
-		for _, site := range ssax.CheckBounds(ivad, byteSlice) {
+		var sites []ssax.BoundsSite
+		for _, g := range withHelpers(ivad) {
+			if shortOf(g) == "uasc" {
+				sites = append(sites, ssax.CheckBounds(g, byteSlice)...)
+			}
+		}
+		for _, site := range sites {
 			if len(site.Issues) == 0 {
 				c.Ob("C09.bounds", fname(ivad)+"·"+site.Expr, pos(c, site.At), true, "in bounds")
 				continue
